@@ -8,7 +8,7 @@ from props import C03
 ID = "C05"
 PROP_FILE = "props/C05.v"
 COQ_TARGETS = ["props/C05.v"]
-THEOREMS = ["C05_emit_observing", "C05_solo_delivery", "C05_unsubscribed_silent", "C05_order", "C05_value", "C05_proj_sound", "C05_frag_stack"]
+THEOREMS = ["C05_emit_observing", "C05_solo_delivery", "C05_unsubscribed_silent", "C05_order", "C05_value", "C05_proj_sound", "C05_frag_stack", "C05_prog_stack"]
 TRUSTED_BASE = [
     "Coq 8.16.1 kernel, vm_compute for the per-tracer projection certificates",
     "model/Rt.v (runtime fold; decision functions regenerated from tracer.py / emit_event.py by gen_emitret.py; loops tied by C04's K-rt correspondence)",
@@ -277,7 +277,7 @@ def run(ctx, model_ok):
         inter = set.intersection(*sets)
         kind = "%d tracers, %s" % (len(st), "same" if all(s == sets[0] for s in sets) else ("disjoint" if not any(sets[i] & sets[j] for i in range(len(sets)) for j in range(i)) else ("overlapping" if inter else "partly overlapping")))
         shapes[kind] = shapes.get(kind, 0) + 1
-    return {
+    res = {
         "evaluations": len(cases),
         "distinct_nontrivial": len({lib.digest(c) for c, im in zip(cases, impl) if "configs" in im and len(im["configs"][0].get("global", [])) >= 4}),
         "rule": "generated programs (see C01) x stacks of 2-3 observing tracers with overlapping / disjoint / nested / identical event subsets (densities 0.15-0.8 of all "
@@ -289,8 +289,16 @@ def run(ctx, model_ok):
         "distribution": {"pair_battery_stacks": len(pb), "stack_shapes": shapes, "deliveries_compared": deliveries, "certificates_checked": len(rows), "certificates_ok": ok},
         "failures": failures, "extra": {"certificate_failures": len(bad)},
     }
+    if model_ok:
+        # the fragment models behind C05_frag_stack / C05_prog_stack: model/FragProg.v against the real rewriter, CPython and the real runtime (K-prog)
+        from props import fragprog
+        fragprog.run_into(ctx, rng, res, 16 if ctx.tier == "quick" else 300)
+    return res
 
 
 def replay(ctx, rep):
     case = (rep.get("failure") or {}).get("case")
+    if case and case.get("frag") == "prog":
+        from props import fragprog
+        return fragprog.replay_case(case)
     return fails_on_impl(case) if case else None
